@@ -105,7 +105,10 @@ pub fn check(tape: &[u32]) -> CheckResult {
                 return Err(Failure::new("tileset-image-pixels", format!("tileset {} image pixel {} is {:?}, stored {:?}", ts.id, k, got, w)).with(detail(json!({"tileset": ts.id}))));
             }
         }
-        for i in 0..ts.count {
+        // tile_image converts the whole tileset on every call: check every tile of small tilesets and a
+        // spread of indices (first, last, around 255/256 and 65535/65536) of large ones
+        let tile_indices: Vec<u32> = if ts.count <= 64 { (0..ts.count).collect() } else { [0u32, 1, 2, 254, 255, 256, 257, 65534, 65535, 65536, ts.count / 2, ts.count - 2, ts.count - 1].iter().copied().filter(|i| *i < ts.count).collect() };
+        for i in tile_indices {
             let ti = o.tile_image(i);
             if ti.dimensions() != (ts.tw as u32, ts.th as u32) {
                 return Err(Failure::new("tile-image-dims", format!("tile_image({}) is {:?}, tile size {}x{}", i, ti.dimensions(), ts.tw, ts.th)).with(detail(json!({"tileset": ts.id}))));
@@ -185,7 +188,7 @@ pub fn check(tape: &[u32]) -> CheckResult {
             }
             let lts = f.tilesets().get(tsid).unwrap();
             let op = mul_un8(s.layers[li].opacity as i32, cel.opacity as i32) as i32;
-            let tile_imgs: Vec<image::RgbaImage> = (0..ts.count).map(|i| lts.tile_image(i)).collect();
+            let mut tile_imgs: std::collections::HashMap<u32, image::RgbaImage> = std::collections::HashMap::new();
             for py in 0..s.height as i64 {
                 for px in 0..s.width as i64 {
                     let (tx, ty) = (px / tw, py / th);
@@ -194,7 +197,10 @@ pub fn check(tape: &[u32]) -> CheckResult {
                         continue;
                     }
                     let id = tm.tile(tx as u32, ty as u32).id();
-                    let src = tile_imgs[id as usize].get_pixel((px % tw) as u32, (py % th) as u32).0;
+                    if tile_imgs.len() > 48 {
+                        tile_imgs.clear();
+                    }
+                    let src = tile_imgs.entry(id).or_insert_with(|| lts.tile_image(id)).get_pixel((px % tw) as u32, (py % th) as u32).0;
                     let a = mul_un8(src[3] as i32, op);
                     let want = if a == 0 { [0, 0, 0, 0] } else { [src[0], src[1], src[2], a] };
                     let got = img.get(px as u32, py as u32);
